@@ -87,14 +87,19 @@ impl Ctx<'_> {
     }
     fn violation(&self, kind: &str, beh: &Value, s: &Value, call: &str, expected: Value, observed: Value) {
         self.bump(1, kind);
+        let cut = observed.get("cut").cloned().unwrap_or(json!(0));
+        if cut != json!(0) {
+            self.bump(1, &format!("{}@cutoff", kind));
+        }
         let mut st = self.stats.lock().unwrap();
         if st.viol_written < 2000 {
             st.viol_written += 1;
             drop(st);
             let rec = json!({
                 "kind": kind, "pat": beh["pat"], "pat_s": cps_str(&beh["pat"]), "flags": cps_str(&beh["flags"]),
-                "x": beh["x"], "s": s, "s_s": cps_str(s), "call": call, "expected": expected, "observed": observed,
+                "x": beh["x"], "s": s, "s_s": cps_str(s), "call": call, "expected": expected, "observed": &observed,
                 "repl2": beh["repl2"], "unopt": beh["unopt"],
+                "cut": cut,
             });
             if let Some(f) = self.viol.lock().unwrap().as_mut() {
                 let _ = writeln!(f, "{}", rec);
@@ -121,6 +126,7 @@ fn strip_iter_meta(r: &Value) -> Value {
     if let Some(o) = r.as_object_mut() {
         o.remove("capped");
         o.remove("extra");
+        o.remove("cut");
     }
     r
 }
@@ -203,9 +209,9 @@ fn compare(ctx: &Ctx, beh: &Value, reply: &Value) {
                 ctx.violation(kind, beh, s, name, exp.clone(), got);
             }
         };
-        cmp("span", "replace0", &case["r0"], r(1));
+        cmp("span", "replace0", &case["r0"], strip_iter_meta(&r(1)));
         if case["capdef"] != false {
-            cmp("group", "replace2", &case["rg"], r(2));
+            cmp("group", "replace2", &case["rg"], strip_iter_meta(&r(2)));
         }
         cmp("tok", "tokenize", &case["tok"], strip_iter_meta(&r(3)));
         let exp_ana = &case["ana"];
